@@ -45,7 +45,8 @@ PROBES = ["resumed_id", "resumed_ticket10", "resumed_ticket13",
           "rotated_key", "evicted", "tampered", "foreign", "fatal_close",
           "crash", "changed_hello", "client_auth_resumed", "api_refused",
           "external_psk", "external_psk_over_ticket", "policy_changed",
-          "policy_excludes_session", "held_open", "version_upgrade"]
+          "policy_excludes_session", "held_open", "version_upgrade",
+          "abandoned_handshake"]
 COMPONENTS_REAL = ["tlslite client/server resumption paths, SessionCache, "
                    "ticket encryption/decryption, Session/Ticket objects"]
 COMPONENTS_STUB = ["socket", "os.urandom", "time.time (per-node SimClock)"]
@@ -272,6 +273,57 @@ def run(job, streams=None):
         return st
 
     held = []
+    completed_srv = set()
+
+    def abandoned_connect(sname, ver, fl, cut):
+        from sim import mitm
+        S = srv[sname]
+        i = nconn[0]
+        nconn[0] += 1
+        sc = {"flavour": "cert", "skey": "rsa",
+              "cset": {"minVersion": list(ver), "maxVersion": list(ver)},
+              "sset": S.settings(ver), "sni": "a.example"}
+        if fl == "cauth":
+            sc["ckey"] = "rsa"
+            sc["req_cert"] = True
+        if fl == "srp":
+            sc["flavour"] = "srp"
+            sc.pop("skey")
+        pair = nodes.Pair(sim, sc, policy="ideal",
+                          cnode=kernel.Node("c%d" % i, seed, cclock),
+                          snode=kernel.Node("s%d" % i, seed, S.clock),
+                          names=("c%d" % i, "s%d" % i))
+        mitm.RecordMitm(pair.link, [{"dir": "c2s", "idx": cut + j,
+                                     "kind": "drop"} for j in range(12)],
+                        sim.stats)
+        pair.c.start(("handshake", "client"), pair.client_gen(None))
+        os_ = pair.s.start(("handshake", "server"),
+                           pair.server_gen(S.cache if S.use_cache else None))
+        sim.run()
+        if os_.kind == "ok":
+            # the cut came after everything the server needed
+            completed_srv.add(id(pair.s.conn.session))
+            if S.use_cache and tuple(ver) < (3, 4):
+                S.inserted += 1
+        for ep in (pair.c, pair.s):
+            if ep.op is not None:
+                ep.cancel()
+        sim.links.remove(pair.link)
+        sim.eps.remove(pair.c)
+        sim.eps.remove(pair.s)
+
+    def check_cache_invariant():
+        # only sessions of COMPLETED handshakes may sit in a cache as
+        # resumable entries
+        for S_ in srv.values():
+            for sid, sess in list(S_.cache.entriesDict.items()):
+                if bytes(sid).startswith(b"dummy"):
+                    continue
+                if id(sess) not in completed_srv and sess.valid():
+                    v("incomplete_session_cached", S_.name,
+                      "the server's SessionCache offers a resumable session "
+                      "whose handshake never completed")
+                    return
 
     def release(info, rec, how):
         finish(info, how)
@@ -337,6 +389,16 @@ def run(job, streams=None):
                 mods["psk"] = srv[sname].psk
             end = ["clean", "clean", "fatal_c", "fatal_s", "crash", "hold"][
                 ch.draw(6, "h.end")]
+            if not offer and ch.draw(8, "h.abandon") == 1:
+                # the client goes silent part-way through its flight and
+                # both applications abandon their handshake calls
+                cut = 1 + ch.draw(5, "h.cut")
+                hist.append(["abandoned_handshake", sname, list(ver), fl,
+                             cut])
+                abandoned_connect(sname, ver, fl, cut)
+                probes["abandoned_handshake"] = 1
+                check_cache_invariant()
+                continue
             hist.append(["connect", sname, list(ver), fl,
                          offer["idx"] if offer else None, mods, end])
             info = connect(sname, ver, fl, offer, mods)
@@ -386,6 +448,7 @@ def run(job, streams=None):
                   "plain full handshake failed: client=%r server=%r" %
                   (info["oc"].exc, info["os"].exc))
             if info["ok"]:
+                completed_srv.add(id(info["pair"].s.conn.session))
                 ver = info["neg_ver"]
                 if S.use_cache and not info["resumed_wire"] and \
                         ver < (3, 4):
